@@ -5,7 +5,7 @@
 #include "vw_defs.h"
 #include "vw_node.h"
 #define PN 4
-CO_PARA V_PG[PN + 1]; CO_OBJ V_PWO[PN + 1]; _Bool H_HAS[PN + 1]; uint8_t H_NUM; _Bool H_NUM_OK; uint8_t V_PMEM[PN + 1][4];
+CO_PARA V_PG[PN + 1]; CO_OBJ V_PWO[PN + 1]; _Bool H_HAS[PN + 1]; _Bool H_NODEF[PN + 1]; uint8_t H_NUM; _Bool H_NUM_OK; uint8_t V_PMEM[PN + 1][4];
 struct nvlog { uint32_t off; uint8_t *buf; uint32_t size; } W_LOG[PN + 2], R_LOG[PN + 2]; uint32_t W_N, R_N, D_N; CO_PARA *D_LOG[PN + 2]; uint32_t H_WRES[PN + 2], H_RRES[PN + 2]; int16_t H_DRES[PN + 2];
 uint32_t COIfNvmWrite(struct CO_IF_T *cif, uint32_t start, uint8_t *buffer, uint32_t size) { __CPROVER_assert(cif == &V_NODE.If, "COIfNvmWrite requires"); uint32_t r = size; if (W_N <= PN) { W_LOG[W_N].off = start; W_LOG[W_N].buf = buffer; W_LOG[W_N].size = size; r = H_WRES[W_N]; } W_N++; __CPROVER_assume(r <= size); return r; }
 uint32_t COIfNvmRead(struct CO_IF_T *cif, uint32_t start, uint8_t *buffer, uint32_t size) { __CPROVER_assert(cif == &V_NODE.If, "COIfNvmRead requires"); uint32_t r = size; if (R_N <= PN) { R_LOG[R_N].off = start; R_LOG[R_N].buf = buffer; R_LOG[R_N].size = size; r = H_RRES[R_N]; } R_N++; __CPROVER_assume(r <= size); return r; }
@@ -18,7 +18,7 @@ void harness(void)
 {
     vw_node_init();
     __CPROVER_assume(H_NUM_OK && H_NUM <= PN && H_SUB >= 1 && H_SUB <= PN && H_HAS[H_SUB]);
-    for (int k = 1; k <= PN; k++) { V_PWO[k].Key = CO_KEY(VW_OP == 1 ? 0x1011 : 0x1010, k, V_PWO[k].Key & 0x3F); V_PWO[k].Data = (CO_DATA)&V_PG[k]; V_PG[k].Start = V_PMEM[k]; V_PG[k].Default = V_PMEM[k]; }
+    for (int k = 1; k <= PN; k++) { V_PWO[k].Key = CO_KEY(VW_OP == 1 ? 0x1011 : 0x1010, k, V_PWO[k].Key & 0x3F); V_PWO[k].Data = (CO_DATA)&V_PG[k]; V_PG[k].Start = V_PMEM[k]; V_PG[k].Default = H_NODEF[k] ? (uint8_t *)0 : V_PMEM[k]; /* a group may have no constant default block (defaults computed by the callback) */ }
     W_N = R_N = D_N = 0; CO_ERR e0 = V_NODE.Error;
     /* the groups a request on sub-index H_SUB addresses: sub 1 with more than one group = every group 2..num */
     _Bool all = (H_SUB == 1 && H_NUM > 1);
